@@ -337,6 +337,34 @@ func (a *runsSubject) Next(ctx context.Context) Response {
 }
 func (a *runsSubject) Close() { a.outer.Close() }
 
+// runsSkipSubject reads only the first item of every run and then moves on: the outer stream has to
+// skip the unread rest of the run itself (and must cope with a failure while doing so).
+type runsSkipSubject struct {
+	outer stream.Stream[stream.Stream[int]]
+	inner stream.Stream[int]
+}
+
+func (a *runsSkipSubject) Next(ctx context.Context) Response {
+	if a.inner == nil {
+		in, err := a.outer.Next(ctx)
+		if err != nil {
+			return Response{Err: err}
+		}
+		a.inner = in
+	}
+	x, err := a.inner.Next(ctx)
+	if err != nil {
+		if err == stream.End {
+			a.inner = nil
+			return Response{Err: errors.New("harness: a run without a first item")}
+		}
+		return Response{Err: err} // the consumer re-issues this call
+	}
+	a.inner = nil // abandon the rest of the run
+	return Response{Items: []int{x}, Complete: true}
+}
+func (a *runsSkipSubject) Close() { a.outer.Close() }
+
 // peekSubject peeks before every Next; the peeked value must equal what Next then returns.
 type peekSubject struct {
 	p      stream.Peekable[int]
@@ -396,7 +424,7 @@ func (a *reducerSubject) Close() {
 	}
 }
 
-var Streaming = []string{"WithPeek", "Chunk", "Compact", "CompactFunc", "Filter", "First", "Flatten", "FlattenSlices", "Join", "Map", "Runs", "While"}
+var Streaming = []string{"WithPeek", "Chunk", "Compact", "CompactFunc", "Filter", "First", "Flatten", "FlattenSlices", "Join", "Map", "Runs", "RunsSkip", "While"}
 var Reducers = []string{"Collect", "Last", "One", "Reduce", "SampleStream"}
 var Background = []string{"Batch", "Merge1", "MapStream", "PipeChain"}
 var PreStages = []string{"Map", "Filter", "Compact", "ChunkFlatten", "First"}
@@ -542,6 +570,15 @@ func Ref(c Case) (flat []int, groups [][]int) {
 			i = j
 		}
 		flat = in
+	case "RunsSkip":
+		for i := 0; i < len(in); {
+			j := i + 1
+			for j < len(in) && same(in[i], in[j]) {
+				j++
+			}
+			flat = append(flat, in[i])
+			i = j
+		}
 	case "Last":
 		n := c.N
 		if n > len(in) {
@@ -592,6 +629,8 @@ func Build(c Case) (Subject, *Env, error) {
 		return itemStream{stream.While(e.pre(e.mainSource()), e.keep)}, e, nil
 	case "Runs":
 		return &runsSubject{outer: stream.Runs(e.pre(e.mainSource()), e.same)}, e, nil
+	case "RunsSkip":
+		return &runsSkipSubject{outer: stream.Runs(e.pre(e.mainSource()), e.same)}, e, nil
 	case "Flatten":
 		inners := e.nestSources(!c.Fault.Outer)
 		ss := make([]stream.Stream[int], len(inners))
